@@ -73,6 +73,11 @@ def dump_region(region, mesh):
         cs.append(dict(startInd=c.startInd, endInd=c.endInd, psival=c.psival,
                        n=len(c)))
     d["contours"] = cs
+    # the region's OWN first and last point of every contour: getRZBoundary overwrites the
+    # last y-row of the arrays with the upper neighbour's first row
+    if region.contours:
+        d["own_first"] = np.array([[c[0].R, c[0].Z] for c in region.contours])
+        d["own_last"] = np.array([[c[-1].R, c[-1].Z] for c in region.contours])
     return d
 
 
